@@ -23,7 +23,12 @@ PARTIAL = ["structured records (kind zerok) are sampled per class (3 per class x
            "reflection coefficients, the others have the float reference only",
            "histories (kind reuse) are sampled, not exhausted: 36 (quick) / 150 per round (thorough) random histories of 8..60 operations; "
            "whether an identity-based (id() / address) staleness bug manifests depends on the allocator state of the process, so the "
-           "same history is run with records built on the spot and with records kept by the caller"]
+           "same history is run with records built on the spot and with records kept by the caller",
+           "sequences (kind seq) are sampled: 96 (quick) / 240 per round (thorough) sequences over 7 families; a remembered result keyed "
+           "by the ADDRESS of the caller's array is only exposed when the allocator hands the freed address to the next copy, which "
+           "was observed to depend on the allocator state (the copies are built on the spot and nothing is allocated by the harness "
+           "between two calls, no more can be done from outside); the second pass separates the calls by ONE unrelated analysis, so "
+           "that a store with more than one slot is exposed by the independent reference only, not by the repeat comparison"]
 ASSUMPTIONS = ["NFFT >= 2m (no overlap of the two halves of psi); non-degenerate Burg error (rho_k >= 1e-9 rho_0)",
                "kind zerok: 'non-degenerate prediction error' is decided by the independent float Burg recursion of the oracle: "
                "rho_{m-1} >= 1e-7 rho_0 and every quantity finite (the threshold the generator uses for all other kinds); a pure fs/4 "
@@ -32,7 +37,13 @@ ASSUMPTIONS = ["NFFT >= 2m (no overlap of the two halves of psi); non-degenerate
                "NFFT / sampling it holds then'; .ar / .reflection are compared only after psd has been read or p() called (they are plain "
                "attributes that the class fills during the computation); after the caller has modified its own array in place the "
                "reference is the current content of .data (the unchanged class copies what it is handed, so this is the record as handed "
-               "over)"]
+               "over)",
+               "kind seq: the integer / single-precision / interleaved readings of a record's bytes are ordinary records of the "
+               "quantifier (finite values, 8 <= N <= 128, 2 <= m <= min(N/2,16), non-degenerate Burg error - checked per step with "
+               "the predicate of the other kinds); a record holding -0.0 is not read as int64 (INT64_MIN has no absolute value in "
+               "int64); for complex64 / float32 containers the statement is evaluated with the precision such a container "
+               "reaches in the unchanged package (the zero-lag energy is formed in single precision by arburg: AR vector within 6.4e-7 "
+               "of the double-precision Burg fit of the same values), tolerance 5e-5"]
 RULE = ("real/complex data (noise, tones in noise, integer, trend) of length 8..128 x m in 2..min(N/2,16) x NFFT >= 2m even/odd "
         "(the boundaries 2m and 2m+1 for every m in 2..8, NFFT < 32, primes, powers of two up to the default 4096) x "
         "sampling in {0.01, 0.5, 1, 2.5, 3 (int), 100}; containers handed to the API: float64/complex128 arrays, int64 / int16 "
@@ -59,7 +70,21 @@ RULE = ("real/complex data (noise, tones in noise, integer, trend) of length 8..
         "independent Burg recursion and - small-integer records with <= 5 non-zero stages - of the Lean model's Burg recursion in "
         "EXACT rational arithmetic (1e-12); records with (numerically) zero prediction error are recognised by a predicate on the "
         "independent reference and not evaluated (tag zerok:excluded:degenerate-prediction-error); structured integer records also "
-        "through the exact Musicus identity")
+        "through the exact Musicus identity; "
+        "SEQUENCES of 2-10 calls (kind seq; minvar and pminvar, scale_by_freq off / on, sometimes preceded by the caller's own arburg / "
+        "pburg analysis at order m-1) on records that are DIFFERENT inputs but agree in an incomplete description of the input: a "
+        "complex128 record and its float64 interleaved view z.view(float64) (same bytes, real, length 2N) / an even-length float64 "
+        "record and its complex128 reading, both orders, same m; a float64 / complex128 record and the int64 / uint64 reading of its "
+        "bytes; a float64 record made of single-precision halves and its complex64 / float32 / int64 readings; records of equal "
+        "length, first and last sample, sum and energy (interior permuted, one pair exchanged, interior rotated / reversed; dyadic "
+        "samples so that sum and energy are exactly equal), reversed, negated, conjugated, two samples moved by +d / -d, a prefix; one "
+        "record with configuration A, then another m / NFFT / sampling / scale_by_freq / entry point, then A again; a record, a copy "
+        "of it built on the spot and freed after the call, its list, another record in between; records that are numerically close "
+        "(one sample / all samples changed by a relative 2^-52..2^-20) and unrelated records at amplitude 2^-40; the calls of a "
+        "sequence are made back to back, every minvar / pminvar result is checked against the independent quadratic form and the "
+        "independent Burg recursion on the VALUES of the reading (tolerances of the other kinds; 5e-5 when the container handed over "
+        "is single precision), and every call is made a second time right after an analysis of an unrelated record and must return "
+        "the same numbers (per bin, 1e-13; bitwise on the unchanged tree)")
 
 
 def _sp():
@@ -1179,6 +1204,9 @@ def gen(rng, nrng, tier):
     # (7) structured records with exactly-zero intermediate quantities of the Burg recursion (kind "zerok"): see _gen_zerok
     yield from _gen_zerok(nrng, tier)
 
+    # (8) sequences of calls on records that are different inputs but look alike (kind "seq"): see _gen_seq
+    yield from _gen_seq(nrng, tier)
+
 
 FS_REUSE = [1.0, 2.5, 100.0, 0.01, 0.5, 3]
 
@@ -1388,3 +1416,373 @@ def _gen_zerok(nrng, tier):
                                 "struct": ["pure-carrier4", "pure-alternating", "constant-on-grid2", "pure-carrier4"][i % 4], "flavour": "const"}))
     _zk_prefetch(cases)
     yield from cases
+
+
+# ---- short SEQUENCES of calls on records that are different inputs but look alike (kind "seq") --------------------------------------
+# Every other kind hands the library a stream of UNRELATED records (or, kind reuse, the records of one object).  A result that is
+# remembered inside the package (arburg / minvar / the class) under an incomplete description of the input - the raw bytes without
+# the dtype, a few samples, the length, sum and energy, the address, "numerically close", the record without the order - is wrong
+# only when two DIFFERENT inputs that agree in that description follow each other.  A case of this kind is such a sequence:
+#
+#   pool    list of float64 / complex128 arrays (the caller's records)
+#   steps   [record index, reading, entry, m, NFFT, sampling, scale_by_freq]
+#
+# reading = how the caller hands the record's memory to the library:
+#   asis  the array itself            copy  a fresh copy built on the spot and freed after the call (CPython recycles its address)
+#   list  a python list               f64   .view(float64): a complex record as its interleaved re,im stream (real, length 2N)
+#   c128  .view(complex128): an even-length real record read as I/Q pairs (complex, length N/2)
+#   i64 / u64  the same bytes read as (unsigned) 64-bit integers - a valid integer record (no NaN / inf patterns exist; a record
+#         holding -0.0 = INT64_MIN is not generated)
+#   c64 / f32  the same bytes read as single-precision pairs (only for records built from single-precision values, so that every
+#         reading is an ordinary finite record)
+# entry = minvar | pminvar (both checked) | arburg | pburg (NOT checked here - C13's -: another Burg analysis the caller made in
+# between, at order m-1, the order minvar uses).
+#
+# Oracle: (1) every minvar / pminvar call against the module's independent reference (own Burg recursion, sampling/(e^H R^-1 e)),
+# on the VALUES of the reading; (2) the result of a call must not depend on the calls made before it: each call is made a second
+# time right after an analysis of an unrelated record and must return the same numbers.
+
+SEQ_READINGS = ("asis", "copy", "list", "f64", "c128", "i64", "u64", "c64", "f32")
+SEQ_SINGLE = ("c64", "f32")
+
+
+def _seq_read(p, rec, reading):
+    """a NEW object (view / copy / list) on record `rec` of the pool, read as `reading`"""
+    a = p["pool"][int(rec)]
+    if reading == "asis":
+        return a
+    if reading == "copy":
+        return np.array(a)
+    if reading == "list":
+        return [complex(v) for v in a] if np.iscomplexobj(a) else [float(v) for v in a]
+    dt = {"f64": np.float64, "c128": np.complex128, "i64": np.int64, "u64": np.uint64, "c64": np.complex64, "f32": np.float32}[reading]
+    return np.ascontiguousarray(a).view(dt)
+
+
+def _seq_values(p, rec, reading):
+    """the sample VALUES of that reading as float64 / complex128 (what the reference is computed from)"""
+    v = np.asarray(_seq_read(p, rec, reading))
+    return v.astype(complex) if np.iscomplexobj(v) else v.astype(float)
+
+
+def _seq_step_ok(p, st):
+    """inside the quantifier: finite values, 8 <= N <= 128, 2 <= m <= min(N/2, 16), NFFT >= 2m, non-degenerate Burg error;
+    integer readings: no INT64_MIN (= the bit pattern of -0.0: its absolute value does not exist in int64)"""
+    rec, reading, entry, m, nfft = st[0], st[1], st[2], int(st[3]), int(st[4])
+    a = p["pool"][int(rec)]
+    if reading == "c128" and (np.iscomplexobj(a) or len(a) % 2):
+        return False
+    if reading == "f64" and not np.iscomplexobj(a):
+        return False
+    if reading in ("i64", "u64") and np.any((a.view(np.float64) == 0) & np.signbit(a.view(np.float64))):
+        return False
+    with np.errstate(all="ignore"):
+        x = _seq_values(p, rec, reading)
+        if not np.all(np.isfinite(x)) or not 8 <= len(x) <= 128 or not 2 <= m <= min(len(x) // 2, 16) or nfft < 2 * m:
+            return False
+        return bool(_ok(x, m))
+
+
+# single-precision containers (complex64 / float32 handed to the library): arburg forms the zero-lag energy with the precision
+# of the container (abs(x)**2. stays float32), the recursion itself runs in complex128.  Measured on the unchanged tree (the
+# sequences of 6 quick + 6 thorough generator passes, 2016 sequences, 312 minvar calls on complex64 / float32 arrays, N 8..128,
+# m 2..16): AR vector within 5.9e-7, reflection coefficients within 6.4e-7 (max-norm, relative) of the double-precision Burg fit
+# of the same sample values, PSD within 3.8e-7.  5e-5 is > 75 x the worst observed; a fit of ANOTHER record is off by O(1).
+# (Double-precision readings of the same passes - asis, copy, list, f64, c128, i64, u64 - stay within the existing tolerances:
+# AR 2.6e-13, reflection 4.2e-14 vs 1e-8; PSD 3.4e-7 of _tol(cond).)
+SEQ_SP_TOL = 5e-5
+# second call vs first call of the same step: bitwise equal on the unchanged tree (deviation 0.0 in the same 2016 sequences and in
+# the quick checks with seeds 0..4 and one thorough check; it is the same code on the same numbers).  Same bound as REUSE_TOL.
+SEQ_REPEAT_TOL = 1e-13
+
+SEQ_FLUSH = np.cos(0.9 * np.arange(11.0) ** 1.3) + 0.25 * np.sin(2.3 * np.arange(11.0))     # the unrelated record of pass 2
+
+
+class _SeqObj(object):
+    """the three observables of a pminvar object, as copies (what _check_class_output looks at)"""
+    def __init__(self, got):
+        self.psd, self.ar, self.reflection = got
+
+
+def _seq_exec(sp, p, st):
+    """one step on the real code, nothing else: the input object is built inside the call expression and is not kept (a fresh
+    copy is freed when the call returns and CPython hands its address to the next one).  -> what minvar returned / the pminvar
+    object after its psd has been read; None for the unchecked entries"""
+    rec, reading, entry, m, nfft, fs, scale = st[0], st[1], st[2], int(st[3]), int(st[4]), st[5], bool(st[6])
+    if entry == "arburg":
+        sp.arburg(_seq_read(p, rec, reading), m - 1)
+        return None
+    if entry == "pburg":
+        sp.pburg(_seq_read(p, rec, reading), m - 1, NFFT=nfft, sampling=fs).psd
+        return None
+    if entry == "minvar":
+        return sp.minvar(_seq_read(p, rec, reading), m, sampling=fs, NFFT=nfft)      # (no copies: the harness allocates nothing here)
+    o = sp.pminvar(_seq_read(p, rec, reading), m, NFFT=nfft, sampling=fs, scale_by_freq=scale)
+    o.psd                                                                             # the computation happens here
+    return o
+
+
+def _seq_check(p, st, got):
+    """the clauses of the property on the result of one step"""
+    rec, reading, entry, m, nfft, fs, scale = st[0], st[1], st[2], int(st[3]), int(st[4]), st[5], bool(st[6])
+    x = _seq_values(p, rec, reading)
+    what = "record %d read as %s: N=%d m=%d NFFT=%d fs=%s %s via %s" % (rec, reading, len(x), m, nfft, fs, "complex" if np.iscomplexobj(x) else "real", entry)
+    if reading not in SEQ_SINGLE:
+        if entry == "minvar":
+            return _check_function_output(got, x, m, nfft, float(fs), what)
+        return _check_class_output(_SeqObj(got), x, x, m, nfft, fs, scale, what)
+    # single-precision container: the same clauses with the tolerance such a container achieves
+    out = []
+    ref, a, ks, cond = _reference(x, m, nfft, float(fs))
+    if entry == "pminvar":
+        ref = _fold(ref, np.iscomplexobj(x), nfft) * (2 * np.pi / (fs / float(nfft)) if scale else 1.0)
+    psd, A, k = np.asarray(got[0]), c(got[1]), c(got[2])
+    if psd.shape != ref.shape or np.iscomplexobj(psd) or not np.all(np.isfinite(psd)) or not np.all(psd > 0):
+        out.append("%s estimate is not a real, finite, strictly positive vector of the expected length (%s)" % (entry, what))
+    elif rel(psd, ref) > max(SEQ_SP_TOL, _tol(cond)):
+        out.append("%s PSD != sampling/(e^H R^-1 e): rel err %.2e (%s)" % (entry, rel(psd, ref), what))
+    if len(A) != m or A[0] != 1 or rel(A[1:], a) > SEQ_SP_TOL:
+        out.append("%s does not return the Burg AR vector (with leading 1) of order m-1 (%s)" % (entry, what))
+    if len(k) != m - 1 or rel(k, ks) > SEQ_SP_TOL:
+        out.append("%s does not return the Burg reflection coefficients (%s)" % (entry, what))
+    return out
+
+
+def _seq_dev(u, v):
+    return max(_binrel(c(a), c(b)) if np.shape(a) == np.shape(b) else float("inf") for a, b in zip(u, v))
+
+
+def oracle_seq(p):
+    sp = _sp()
+    p = dict(p, pool=[np.array(a) for a in p["pool"]])
+    steps = p["steps"]
+    out = []
+    # pass 1: the sequence as the caller runs it, back to back (nothing is computed by the harness between two calls)
+    first = [_seq_exec(sp, p, st) for st in steps]
+    first = [None if g is None else tuple(np.array(v) for v in (g if isinstance(g, tuple) else (g.psd, g.ar, g.reflection))) for g in first]
+    for j, st in enumerate(steps):
+        if first[j] is not None:
+            out += ["step %d of the sequence (%s): %s" % (j, p.get("family"), f) for f in _seq_check(p, st, first[j])]
+            if len(out) >= 4:
+                return out
+    # pass 2: every checked call once more, each right after an analysis of an unrelated record with another order
+    for j, st in enumerate(steps):
+        if first[j] is None:
+            continue
+        sp.minvar(np.array(SEQ_FLUSH), 3, NFFT=8)
+        got = _seq_exec(sp, p, st)
+        got = tuple(np.array(v) for v in (got if isinstance(got, tuple) else (got.psd, got.ar, got.reflection)))
+        dev = _seq_dev(got, first[j])
+        if dev > SEQ_REPEAT_TOL:
+            prev = steps[j - 1] if j else None
+            fails = _seq_check(p, st, got)
+            out.append("step %d of the sequence (%s): %s of record %d read as %s (m=%d NFFT=%d) returns other numbers after %s than after an "
+                       "unrelated record (per-bin rel deviation %.2e; the second result %s the independent reference): the result depends on "
+                       "the calls made before" % (j, p.get("family"), st[2], st[0], st[1], int(st[3]), int(st[4]),
+                                                  "the call before it (%s of record %d read as %s, m=%d)" % (prev[2], prev[0], prev[1], int(prev[3])) if prev else "nothing",
+                                                  dev, "fails" if fails else "agrees with"))
+        if len(out) >= 4:
+            break
+    return out
+
+
+def _tags_seq(p):
+    t = ["seq:family=%s" % p.get("family"), "seq:steps=%d" % len(p["steps"])]
+    for st in p["steps"]:
+        t.append("seq-step:read=%s" % st[1])
+        t.append("seq-step:entry=%s" % st[2])
+    for s0, s1 in zip(p["steps"][:-1], p["steps"][1:]):
+        if s0[0] == s1[0] and s0[1] != s1[1] and int(s0[3]) == int(s1[3]):
+            a, b = sorted((s0[1], s1[1]))
+            t.append("seq-pair:same-bytes-same-m:%s/%s" % (a, b))
+    return t
+
+
+def _key_seq(p):
+    import zlib
+    crc = 0
+    for a in p["pool"]:
+        crc = zlib.crc32(np.ascontiguousarray(a).tobytes(), crc)
+    return "seq|%s|%d|%d|%d" % (p.get("family"), len(p["pool"]), crc, zlib.crc32(repr([list(s) for s in p["steps"]]).encode()))
+
+
+KINDS["seq"] = {"oracle": oracle_seq, "key": _key_seq, "tags": _tags_seq}
+
+SEQ_FAMILIES = ["reinterp", "reinterp-int", "reinterp-single", "lookalike", "config-return", "copies", "close", "reinterp"]
+
+
+def _gen_seq(nrng, tier):
+    """see the comment of the kind.  Families:
+    reinterp         a complex128 record and its float64 interleaved view / an even-length float64 record and its complex128
+                     reading, both orders, same m (NFFT / sampling / entry point may differ), sometimes with the direct arburg /
+                     pburg analysis of one reading first
+    reinterp-int     a float64 / complex128 record and the int64 / uint64 reading of its bytes
+    reinterp-single  a float64 record built from single-precision values and its complex64 / float32 / int64 readings
+    lookalike        records of equal length, equal first and last sample, equal sum and energy: interior samples permuted, one
+                     pair exchanged, reversed, negated, conjugated, two samples moved by +d / -d; a record and its prefix
+    config-return    ONE record: configuration A, then another m / NFFT / sampling / entry point, then A again
+    copies           a record, a copy of it, the list of it, the copy again: equal values in different objects
+    close            records that are numerically close: relative perturbation 2^-52 .. 2^-20 of one / all samples, and unrelated
+                     records at amplitude 2^-40 (all of them 'equal' to each other within an absolute tolerance)"""
+    quick = tier == "quick"
+    kinds = ["noise", "tone", "int", "noise", "trend"]
+    FS = [1.0, 2.5, 100.0, 0.01, 0.5, 3]
+    n_emit = 0
+    occ = {}
+    for ci in range(96 if quick else 240):
+        fam = SEQ_FAMILIES[ci % len(SEQ_FAMILIES)]
+        fi = occ[fam] = occ.get(fam, -1) + 1          # how many sequences of this family came before: selects the variant inside the family
+        cplx = bool(fi % 2)
+        knd = kinds[(ci // 2) % len(kinds)]
+        pool = []
+        steps = []
+
+        def cfg(m, j):
+            nf = [2 * m, 2 * m + 1, 32, 33, 64, 48][(fi + ci + j) % 6]
+            return [m, max(nf, 2 * m), FS[(fi + ci + j) % len(FS)], bool((fi + ci + j) % 3 == 0)]
+
+        def entry(j):
+            return ["minvar", "pminvar", "minvar"][(fi + ci + j) % 3]
+
+        def rec(N, cx, kind=None):
+            x, _ = gen_data(nrng, N, cx, kind=kind or knd)
+            return np.asarray(x, dtype=complex if cx else float)
+
+        if fam == "reinterp":
+            if cplx:
+                n = int(nrng.integers(8, 65))
+                pool.append(rec(n, True))
+                other, nmin = "f64", n
+            else:
+                n = 2 * int(nrng.integers(8, 65))
+                pool.append(rec(n, False))
+                other, nmin = "c128", n // 2
+            m = int(nrng.integers(2, min(nmin // 2, 16) + 1))
+            order = [("asis", other), (other, "asis")][(fi // 2) % 2]
+            same_cfg = fi % 3 == 0
+            w = (fi // 4) % 4
+            if w == 1:      # the caller first ran the Burg analysis itself
+                steps.append([0, order[0], "arburg"] + cfg(m, 0))
+                steps.append([0, order[1], entry(1)] + cfg(m, 1))
+                steps.append([0, order[0], entry(2)] + cfg(m, 2))
+            elif w == 2:
+                steps.append([0, order[0], "pburg"] + cfg(m, 0))
+                steps.append([0, order[1], entry(1)] + cfg(m, 1))
+            else:
+                steps.append([0, order[0], entry(0)] + cfg(m, 0))
+                steps.append([0, order[1], entry(0 if same_cfg else 1)] + cfg(m, 0 if same_cfg else 1))
+                if w == 3:  # and back, and once more with another order in between
+                    steps.append([0, order[0], entry(2)] + cfg(m, 2))
+                    m2 = 2 + (m - 1) % max(1, min(nmin // 2, 16) - 1)
+                    steps.append([0, order[1], entry(3)] + cfg(m2, 3))
+                    steps.append([0, order[1], entry(4)] + cfg(m, 4))
+        elif fam == "reinterp-int":
+            n = int(nrng.integers(8, 65)) if cplx else int(nrng.integers(8, 129))
+            pool.append(rec(n, cplx, kind=["noise", "int", "noise", "tone"][(fi // 2) % 4]))
+            m = int(nrng.integers(2, min(n // 2, 16) + 1))
+            rd = ["i64", "u64"][(fi // 2) % 2]
+            seq = [["asis", rd], [rd, "asis"], ["asis", "i64", "u64", "asis"], [rd, "copy", rd]][(fi // 4) % 4]
+            if cplx and fi % 3 == 0:
+                seq = ["f64"] + seq
+            for j, r in enumerate(seq):
+                steps.append([0, r, entry(j)] + cfg(m, j if fi % 2 else 0))
+        elif fam == "reinterp-single":
+            # a float64 record whose two 32-bit halves are ordinary single-precision numbers (what numpy.frombuffer gives for a
+            # file of complex64 samples read with the wrong dtype): every reading is a finite record
+            n = int(nrng.integers(8, 33))
+            c64 = ((nrng.uniform(0.25, 8, n) * nrng.choice([-1, 1], n)) + 1j * (nrng.uniform(0.25, 8, n) * nrng.choice([-1, 1], n))).astype(np.complex64)
+            pool.append(np.array(c64.view(np.float64)))
+            m = int(nrng.integers(2, min(n // 2, 16) + 1))
+            seq = [["asis", "c64"], ["c64", "asis"], ["f32", "asis", "c64"], ["c64", "i64", "asis", "f32"]][fi % 4]
+            for j, r in enumerate(seq):
+                steps.append([0, r, entry(j)] + cfg(m, j if fi % 2 else 0))
+        elif fam == "lookalike":
+            n = int(nrng.integers(10, 129))
+            x = rec(n, cplx)
+            if fi % 3 != 2:
+                x = np.round(x * 1024) / 1024       # dyadic samples: sum and energy are exact, whatever the order of summation
+            pool.append(x)
+            # members 1..5 agree with x in length, first and last sample, sum and energy
+            for _ in range(2):
+                y = x.copy()
+                y[1:-1] = x[1:-1][nrng.permutation(n - 2)]        # interior samples permuted
+                pool.append(y)
+            y = x.copy()
+            i = int(nrng.integers(1, n - 2))
+            y[i], y[i + 1] = x[i + 1], x[i]                       # one interior pair exchanged
+            pool.append(y)
+            y = x.copy()
+            y[1:-1] = np.roll(x[1:-1], 1 + int(nrng.integers(0, n - 3)))     # interior rotated
+            pool.append(y)
+            y = x.copy()
+            y[1:-1] = x[1:-1][::-1]                               # interior reversed
+            pool.append(y)
+            nlike = len(pool)
+            # the others agree in some of them only
+            pool.append(x[::-1].copy())
+            pool.append(-x)
+            y = x.copy()
+            d = 0.5 * float(np.max(np.abs(x)))
+            i, k = 1 + int(nrng.integers(0, (n - 2) // 2)), n - 2 - int(nrng.integers(0, (n - 2) // 2 - 1))
+            if i != k:
+                y[i] += d
+                y[k] -= d                                         # same sum, ends, length
+            pool.append(y)
+            pool.append(np.conj(x) if cplx else x[: n - 1 - int(nrng.integers(0, 2))].copy())     # conjugate / a prefix
+            m = int(nrng.integers(2, min((n - 2) // 2, 16) + 1))
+            idx = [int(v) for v in nrng.permutation(nlike)[: int(nrng.integers(3, 6))]]
+            far = nlike + int(nrng.integers(0, len(pool) - nlike))
+            idx = (idx + [far] + idx[:2]) if fi % 2 else ([far] + idx)
+            for j, r in enumerate(idx):
+                steps.append([r, ["asis", "copy"][(fi + j) % 2], entry(j)] + cfg(m, j if fi % 3 else 0))
+        elif fam == "config-return":
+            n = int(nrng.integers(8, 129))
+            pool.append(rec(n, cplx))
+            mmax = min(n // 2, 16)
+            m = int(nrng.integers(2, mmax + 1))
+            m2 = m - 1 if m > 2 else min(m + 1, mmax)
+            A = cfg(m, 0)
+            e0 = entry(0)
+            steps.append([0, "asis", e0] + A)
+            alts = [[m2, max(A[1], 2 * m2), A[2], A[3]], [m, A[1] + 1, A[2], A[3]], [m, A[1], A[2] * 4, A[3]], [m, 2 * A[1], A[2], not A[3]],
+                    [min(m + 1, mmax), max(A[1], 2 * min(m + 1, mmax)), A[2], A[3]]]
+            for j in range(int(nrng.integers(2, 5))):
+                alt = alts[int(nrng.integers(0, len(alts)))]
+                steps.append([0, ["asis", "copy"][j % 2], entry(j + ci) if j % 2 else e0] + alt)
+                if j % 2 == 0 or fi % 2:
+                    steps.append([0, "asis", e0] + A)
+            steps.append([0, "copy", e0] + A)
+        elif fam == "copies":
+            n = int(nrng.integers(8, 129))
+            pool.append(rec(n, cplx))
+            pool.append(rec(n, cplx))
+            m = int(nrng.integers(2, min(n // 2, 16) + 1))
+            A = cfg(m, 0)
+            for j, (r, rd) in enumerate([(0, "asis"), (0, "copy"), (1, "copy"), (0, "copy"), (0, "list"), (1, "list"), (1, "asis"), (0, "asis")][: int(nrng.integers(4, 9))]):
+                steps.append([r, rd, entry(j // 2)] + (A if fi % 2 else cfg(m, j // 3)))
+        else:   # close
+            n = int(nrng.integers(8, 129))
+            w = (fi // 2) % 3
+            if w == 2:
+                for _ in range(3):
+                    pool.append(rec(n, cplx, kind=["noise", "tone", "int"][len(pool) % 3]) * 2.0 ** -40)
+            else:
+                x = rec(n, cplx, kind=["noise", "tone"][fi % 2])
+                pool.append(x)
+                for e in ([52, 44, 30, 20] if w == 0 else [50, 36, 24]):
+                    y = x.copy()
+                    if w == 0:
+                        i = int(nrng.integers(0, n))
+                        y[i] = y[i] * (1 + 2.0 ** -e) if y[i] != 0 else 2.0 ** -e
+                    else:
+                        y = y * (1 + 2.0 ** -e * nrng.choice([-1.0, 1.0], n))
+                    pool.append(y)
+            m = int(nrng.integers(2, min(n // 2, 16) + 1))
+            idx = [int(v) for v in nrng.permutation(len(pool))]
+            idx = idx + idx[:1]
+            for j, r in enumerate(idx):
+                steps.append([r, ["asis", "copy"][(fi + j) % 2], entry(j // 2)] + cfg(m, 0 if fi % 2 else j // 2))
+        q = {"pool": pool, "steps": steps, "family": fam}
+        if all(_seq_step_ok(q, st) for st in steps):
+            n_emit += 1
+            yield ("seq", q)
